@@ -267,9 +267,9 @@ CHECKS.update({
 CONC_NOTE = SC_NOTE + " Elements are tagged, heap-owning objects; real-time order is judged from stamps of a global atomic clock taken around each call (a necessary condition of linearizability, not a full linearizability check)."
 CHECKS.update({
     "C33": pool_check("ConcurrentVector concurrent growth is exact",
-                      "2-4 growers with generated lists over push_back / emplace_back / grow_by(n,v) / grow_by_generator / grow_by(range) / grow_to_at_least, 264-byte elements (first bucket of 2, so a few elements cross bucket boundaries), three trait sets (default, half-buffer-ahead + heap buffer table + compact iterators, full-buffer-ahead), 0-2 readers re-reading published elements through saved references, 0-3 pre-existing elements. Every index handed out once, every tag present exactly once at its owner's index, size == total growth (>= with grow_to_at_least, extra elements default constructed), saved references still valid.",
+                      "2-4 growers with generated lists over push_back / emplace_back / grow_by(n,v) / grow_by_generator / grow_by(range) / grow_to_at_least, 264-byte elements (first bucket of 2, so a few elements cross bucket boundaries), three trait sets (default, half-buffer-ahead + heap buffer table + compact iterators, full-buffer-ahead), 0-2 readers re-reading published elements through saved references, 0-3 pre-existing elements. Every index handed out once, every tag present exactly once at its owner's index, size == total growth (>= with grow_to_at_least, extra elements default constructed), saved references still valid; the iterator returned by grow_to_at_least denotes an element of the vector; begin() / end() taken by readers during the growth: end() lies between size() before and after the call and compares equal to the iterator of its position once the growth is over.",
                       [e1("conc", "cvgrow")], "§4 C33",
-                      technique="PBT over grower op lists x traits under generated dsched schedules; oracle = index ownership map + tag multiset + reference stability", note=CONC_NOTE),
+                      technique="PBT over grower op lists x traits under generated dsched schedules; oracle = index ownership map + tag multiset + reference stability + iterator validity (distance and equality against begin()+d after the join)", note=CONC_NOTE),
     "C34": pool_check("MpmcRingBuffer is an exactly-once bounded FIFO",
                       "Capacities 2, 3 (exact), 4, 5 (exact), 3 rounded to 4, 8; 2-4 threads with lists over try_push / try_emplace / try_push_batch(2,3) / try_pop(T&) / try_pop() / try_pop_into. Ledger: every popped tag was pushed, none twice; occupancy lower bound never above capacity(); FIFO in real time (a pushed entirely before b is never popped entirely after it, nor left in the ring when b was popped); at quiescence size/empty/full agree, exactly capacity-size pushes succeed, the drain is FIFO; all element objects destroyed once the ring is gone. Failure of a single operation under contention is allowed (documented fail-fast).",
                       [e1("conc", "mpmc")], "§4 C34-C36", technique="PBT over producer/consumer op lists x capacities under generated dsched schedules; oracle = exactly-once ledger + occupancy bound + real-time FIFO + quiescent exactness + lifetime balance", note=CONC_NOTE),
@@ -296,4 +296,57 @@ CHECKS.update({
                       "A private TimedTaskScheduler under the virtual clock (hook: getTime() through std::chrono); executors ImmediateInvoker and ThreadPool(1-2); periods 0 / 20 us / 0.3 ms / 2 ms, timesToRun 1-5 and unbounded, steady and normal, first run in the past / now / future, a run that returns false at a generated index, and a controller that lets the task finish, cancels, destroys or detaches+destroys it at a generated virtual instant. Invocations <= timesToRun; nothing before the first scheduled time (10 us firing margin); after a false return / after cancel() returned at most the invocations already past their check (<= number of executors, 0 further for ImmediateInvoker) may begin; after a non-detached destructor returned no invocation is in progress and none ever starts; the function object is never invoked after destruction and every copy of it is destroyed in the end. Crashes (terminate, SIGSEGV with heap poisoning) are violations.",
                       [e1("timed", "timed")], "§4 C26",
                       technique="PBT over (executor, period, count, first-run time, false-return index, controller action and instant) under generated dsched schedules and the virtual clock; oracle = invocation log with virtual timestamps + function-object lifetime counters + crash detection with poisoned heap"),
+})
+
+
+# ---- C10 / C11: the generated API-usage programs of the other properties' harnesses, run natively with real threads
+# under a sanitizer. The sanitizer is the oracle (--san-only): a semantic verdict that depends on virtual time or on the
+# explorer's thread-state queries is not valid natively and is recorded as inconclusive instead.
+def san(harness, prop, part, variant, quick, thorough):
+    return dict(harness=harness, variant=variant, part=part, prop=prop, args=["--san-only"], quick=quick, thorough=thorough)
+
+
+def san_parts(variant, scale=1.0):
+    t = [("pool", "C01", "prog", 120), ("pool", "C02", "forkjoin", 80), ("pool", "C03", "prog", 60), ("pool", "C04", "cancel", 200),
+         ("pool", "C05", "prog", 80), ("pool", "C06", "prog", 100), ("pool", "C47", "prog", 80), ("pool", "C08", "probe", 40),
+         ("pool", "C46", "chain", 20),
+         ("sync2", "C22", "rwlock", 400), ("sync2", "C23", "drwlock", 400), ("sync2", "C24", "async", 400), ("sync2", "C25", "respool", 300),
+         ("sync2", "C45", "tid", 200),
+         ("future", "C18", "fut", 300), ("future", "C19", "then", 400), ("future", "C20", "timed", 400),
+         ("pipe", "C27", "pipe", 300), ("pipe", "C27", "handoff", 300), ("pipe", "C28", "pipe", 300), ("pipe", "C29", "fault", 300),
+         ("graph", "C30", "native", 1000), ("graph", "C31", "native", 1000),
+         ("loops", "C12", "native", 200), ("loops", "C13", "native", 200), ("loops", "C14", "native", 150), ("loops", "C48", "native", 150),
+         ("loops", "C48", "fe-native", 150), ("loops", "C15", "native", 200), ("loops", "C16", "native", 200),
+         ("timed", "C26", "timed", 400),
+         ("conc", "C33", "cvgrow", 800), ("conc", "C34", "mpmc", 800), ("conc", "C35", "spsc", 800), ("conc", "C36", "cld", 800),
+         ("conc", "C37", "arena", 800), ("conc", "C41", "sba", 800), ("conc", "C42", "pool", 800)]
+    return [san(h, p, part, variant, max(10, int(q * scale)), max(10, int(q * scale)) * 40) for h, p, part, q in t]
+
+
+SAN_PROGRAMS = ("The generated programs of the harnesses behind C01-C06, C08, C12-C16, C18-C20, C22-C31, C33-C37, C41, C42, C45-C48 "
+                "(thread pool producers / task sets / bulk and forced-queue submission / resize / cancellation / throwing tasks / nested waits, "
+                "parallel_for / for_each / parallel_invoke shapes, futures and continuations on five schedulers, pipelines incl. throwing stages, "
+                "task graphs with partial re-evaluation, RW locks, AsyncRequest, ResourcePool, TimedTask incl. cancel / destroy / detach, "
+                "concurrent growth of ConcurrentVector and ConcurrentObjectArena, MPMC / SPSC rings, Chase-Lev deque, small-buffer and pool allocators) "
+                "run with REAL threads, ")
+CHECKS.update({
+    "C10": dict(title="No data races under the weak memory model", level="exploration",
+                technique="program-level PBT: the generators of 38 harness parts produce API-usage programs within the documented thread-safety contract; each runs natively under ThreadSanitizer (happens-before race detector over the declared memory orders, locks and the library's own annotations), any report is a violation; harness bookkeeping uses relaxed atomics only so that it adds no happens-before edges of its own",
+                text=SAN_PROGRAMS + "compiled with -fsanitize=thread, one report ends the case (halt_on_error) and is attributed to it. Data handed between threads by the operation under test (task closures, queue elements, future results, pipeline items, allocator blocks) is plain memory, so a missing release/acquire edge inside the library shows up as a race on it.",
+                note="TSan sees the schedules the machine happens to produce (16 cores, 2-20 threads per program), not all of them; it models release/acquire/seq_cst and locks, and standalone fences only approximately (the library's TSAN annotations cover its fence-based paths). The interleaving dimension of the same programs is explored by the dsched parts of the individual properties.",
+                design_ref="§4 C10", parts=san_parts("tsan"),
+                assumptions=["ThreadSanitizer (clang 14) is a sound happens-before detector for the operations it models; reports inside the harness itself were removed by construction (relaxed-atomic bookkeeping)",
+                             "covers the paths the generated programs execute under the machine's natural schedules; not an enumeration of interleavings"]),
+    "C11": dict(title="Memory safe and leak free, including error paths", level="exploration",
+                technique="program-level PBT: the same generated programs (incl. throwing tasks, cancellation, pipelines unwinding after an exception, detach / destroy of timed tasks, pool teardown) run natively under AddressSanitizer + UndefinedBehaviourSanitizer with a LeakSanitizer check after every case; plus the rapidcheck container-history models (ConcurrentVector, SmallVector, OnceFunction, OpResult, CpuSet parsers) under ASan/UBSan; inside the schedule explorer every E1 check additionally poisons freed blocks and reports writes to them",
+                text=SAN_PROGRAMS + "compiled with -fsanitize=address,undefined (-fno-sanitize-recover), LeakSanitizer run after each case: out-of-bounds, use-after-free, UB and leaked allocations are violations. Stateful container histories (insert / erase / grow / shrink / move / swap / clear over element types with lifetime tracking) run under the same sanitizers via rapidcheck.",
+                note="Exception, cancellation and shutdown paths are reached by construction (generators of C04, C05, C29, C26, C09-style teardown). Leak check = allocations of a case that are neither freed nor reachable when the case ends.",
+                design_ref="§4 C11",
+                parts=san_parts("asan", 1.5) + [dict(harness="cvec", variant="rcasan", part="model", prop="C32", quick=20000, thorough=400000),
+                                                 dict(harness="small", variant="rcasan", part="model", prop="C38", quick=20000, thorough=400000),
+                                                 dict(harness="small", variant="rcasan", part="once", prop="C39"),
+                                                 dict(harness="small", variant="rcasan", part="model", prop="C40", quick=20000, thorough=400000),
+                                                 dict(harness="cpuset", variant="rcasan", part="cpulist", prop="C43", quick=20000, thorough=300000)],
+                assumptions=["ASan / UBSan / LSan (clang 14) report every violation of their class on executed paths",
+                             "covers the paths the generated programs and histories execute"]),
 })
